@@ -31,6 +31,21 @@ mod vf_not_a_bridge {
 }
 pub trait VfTrait { fn f(&self); }
 pub const VF_CONST: u32 = 7;
+// modules that belong to *other* tools: only `#[diplomat::bridge]` marks a bridge (seed C14-i: any attribute path ending in `bridge`)
+#[cxx::bridge]
+mod vf_cxx_bridge {
+    pub struct VfTelemetry { pub level: u8, pub code: u32 }
+    pub enum VfMode { Fast, Slow }
+}
+#[other_tool::bridge(namespace = "x")]
+pub mod vf_other_bridge {
+    pub struct VfGauge { pub v: f32 }
+    impl VfGauge { pub fn read(&self) -> f32 { self.v } }
+}
+#[bridge]
+mod vf_bare_bridge {
+    pub struct VfBare { pub b: bool }
+}
 '''
 
 
